@@ -722,6 +722,10 @@ def _get_rotation_and_strain(
         return np.zeros((3, 3)), 0.0
     if phase == MineralPhase.olivine:
         slip_indices = np.argsort(np.abs(slip_invariants / crss))
+        # Only slip systems with infinite CRSS are loaded (e.g. olivine C-type with
+        # shear resolved exclusively on (010)[001]), thus no slip is possible.
+        if slip_invariants[slip_indices[-1]] == 0:
+            return np.zeros((3, 3)), 0.0
         slip_rates = _get_slip_rates_olivine(
             slip_invariants,
             slip_indices,
